@@ -24,7 +24,8 @@ fn fmt_two(w: &mut dyn Write, _now: &mut DeferredNow, _r: &Record) -> std::io::R
 fn stub_eprint_err(_c: ErrorCode, _m: &str, _e: &dyn std::error::Error) {
     vs::cell_inc(4);
 }
-// @verif prop=C20 tier=quick timeout=600 bounds=write_buffered(stdout/stderr-path),format-output-2-symbolic-bytes,2-records
+// @verif prop=C20 tier=probe timeout=600 bounds=write_buffered(stdout/stderr-path)
+// BUDGET GATE: unwinding assertion at unwind 8, out of memory at unwind 16 (io::Error result handling via inspect_err); not registered.,format-output-2-symbolic-bytes,2-records
 // util::write_buffered (the framing used for stdout / stderr and the duplicates): each record reaches the writer in exactly one write call as format output + one line feed, and the buffer is empty for the next record.
 #[kani::proof]
 #[kani::unwind(16)]
